@@ -20,13 +20,16 @@ OkScript == [setup |-> Ph(<<>>, "ok"), body |-> Ph(<<>>, "ok"), teardown |-> Ph(
 F(p, s, i) == [pat |-> p, strict |-> s, invert |-> i]
 Pl(n, en, er) == [name |-> n, enabled |-> en, err |-> er]
 Cfg(rp, rv, sh, ri, gf, nf, pl) == [repeat |-> rp, reverse |-> rv, shuffle |-> sh, runIgnored |-> ri, gf |-> gf, nf |-> nf, plugins |-> pl]
-T(gg, nn, ig) == [g |-> gg, n |-> nn, ign |-> ig]
+T(gg, nn, ig) == [g |-> gg, n |-> nn, ign |-> ig, after |-> <<>>]
+TA(gg, nn, ig, af) == [g |-> gg, n |-> nn, ign |-> ig, after |-> af]
+ChainOps == { <<>>, <<[op |-> "install", name |-> "Q1"]>>, <<[op |-> "remove", name |-> "P1"]>>, <<[op |-> "remove", name |-> "P3"], [op |-> "install", name |-> "Q2"]>> }
 
 Regs ==
     IF Mode \in {"life", "life2"} THEN { [i \in 1..n |-> T(A, <<"t", ToString(i)>>, FALSE)] : n \in 0..MaxTests }
     ELSE IF Mode = "select" THEN
         UNION { [1..n -> { T(gg, nn, ig) : gg \in {A, AB, B}, nn \in {X, XY}, ig \in BOOLEAN }] : n \in 0..MaxTests }
-    ELSE { [i \in 1..n |-> T(A, <<"t", ToString(i)>>, FALSE)] : n \in 1..MaxTests }
+    \* "ptr": plugins are also installed / removed between the tests of the run
+    ELSE UNION { { [i \in 1..n |-> TA(A, <<"t", ToString(i)>>, FALSE, af[i])] : af \in [1..n -> ChainOps] } : n \in 1..MaxTests }
 Cfgs ==
     IF Mode = "life" THEN { Cfg(rp, FALSE, FALSE, FALSE, <<>>, <<>>, pl) : rp \in 1..2, pl \in { <<>>, <<Pl("P1", TRUE, TRUE)>> } }
     ELSE IF Mode = "life2" THEN { Cfg(rp, FALSE, FALSE, FALSE, <<>>, <<>>, <<>>) : rp \in 2..3 }
